@@ -61,6 +61,11 @@ CLAIMED = {
             "and that no index / expect / serde_json indexing in to_emmyrc_json and flatten_object can panic for keys of 1..3 (thorough 1..5) segments and values of every JSON kind.",
             "std string API and serde_json Value contracts (stated in props/c31flat.py); regex group participation by syntactic analysis of the pattern; the Lua loader and file I/O are outside (a native panic battery covers them only as replay).",
             "DESIGN.md §2 C31"),
+    "C32": ("MIR-to-SMT symbolic execution (z3/cvc5) of load_configs_raw, merge_values (all 36 pairs of JSON kinds, z3 case split) and to_emmyrc_json; native replay by loading generated pairs/triples of documents in two processes and comparing with a reference merge",
+            "Inductive argument, each step over all paths of the real MIR: every document is brought to the nested normal form before merge_values sees it; merge_values replaces for unlike kinds, merges objects key-wise "
+            "(found -> recursive merge with that slot and value, absent -> insert), appends arrays through a filter proved to be seen.insert(item) with `seen` starting from base's items; to_emmyrc_json descends the segments of a dotted key in order.",
+            "serde_json::Map / Vec::extend / Iterator::filter / HashSet::insert contracts (events, not executed); structural induction on depth and entries; a single file spelling one setting twice, the Lua loader, serde deserialisation into Emmyrc are outside.",
+            "DESIGN.md §2 C32"),
     "C01": ("Kani/CBMC on Reader per byte-width shape + MIR-to-SMT symbolic execution of LuaGreenNodeBuilder with exact Vec models over all operation patterns and symbolic kinds; native replay by parsing",
             "Kernel-scope claim: (i) the reader covers the whole text (CBMC: ranges, tiling, end-of-input <=> all consumed, progress) for every text shape; (ii) the green builder keeps every pushed "
             "token exactly once and in order under one root, for every balanced operation sequence within the bound and every node/token kind (paths of the real MIR, z3 feasibility).",
@@ -119,7 +124,7 @@ def main():
         "engines": [
             {"name": "K", "path": "/verif/lib/kanirun.py", "serves_properties": ["C01", "C02", "C21", "C22", "C23", "C36"],
              "kind_free_text": "Kani 0.68 proof harnesses (/verif/kani/*) over the real crates, CBMC 6.11 + cadical, unwinding assertions on, native replay"},
-            {"name": "M", "path": "/verif/mirsmt", "serves_properties": ["C01", "C02", "C09", "C10", "C19", "C20", "C21", "C24", "C31", "C36"],
+            {"name": "M", "path": "/verif/mirsmt", "serves_properties": ["C01", "C02", "C09", "C10", "C19", "C20", "C21", "C24", "C31", "C32", "C36"],
              "kind_free_text": "symbolic execution of rustc's MIR of the real functions into SMT (z3, cross-checked with cvc5)"},
         ],
         "checks": checks,
